@@ -537,7 +537,21 @@ class R:
         return out
 
 
+def table_rhs(st):
+    """the statement's right-hand side is a table literal (its text ends with `|`) / the statement is a bare table"""
+    return any(isinstance(x, tuple) and x and x[0] == "table" for x in st)
+
+
 def model_case(stmts, rng, v, stream):
+    # a table literal continues over the following lines as long as they start with `|` (even across a blank line), so a
+    # bare table expression directly after a statement that ends with a table would be read as more rows of that table:
+    # such a sequence does not denote the tree the case claims; the second statement is dropped
+    keep = []
+    for st in stmts:
+        if keep and table_rhs(keep[-1]) and st[0] == "expr" and table_rhs(st):
+            continue
+        keep.append(st)
+    stmts = keep
     src = R(rng, v).prog(stmts)
     return dict(sx=sx(["prog"] + [s_sx(s) for s in stmts]), impl=dict(src=src), tags=dict(stream=stream))
 
